@@ -57,7 +57,7 @@ def gen_shape(rng, auto):
     durOf, nextOf, mf = {}, {}, []
     for s in names:
         if rng.random() < 0.55:
-            durOf[s] = rng.choice([1, 2, 3, 5, 8])
+            durOf[s] = rng.choice([0, 1, 2, 3, 5, 8])
             nextOf[s] = rng.choice(["none"] + names) if rng.random() < 0.75 else "none"
         else:
             durOf[s] = -1
@@ -76,7 +76,8 @@ def gen_shape(rng, auto):
     # overridden states: a base-class variant (never to be called) exists in a lower layer
     overridden = [s for s in states if layer[s] > 0 and rng.random() < 0.4]
     byobj = rng.random() < 0.3    # pass state objects instead of names to engage/next_state
-    extra = {"sigs": sigs, "layer": layer, "nlayers": nlayers, "overridden": overridden, "byobj": byobj}
+    extra = {"sigs": sigs, "layer": layer, "nlayers": nlayers, "overridden": overridden, "byobj": byobj,
+             "twin": rng.random() < 0.35}
     return shape, extra
 
 
@@ -105,7 +106,8 @@ class Machine:
         drv = self
 
         def _rec(self_, name, tag, kw):
-            drv.on_call(name, tag, kw)
+            if self_ is drv.sm:          # a second instance of the class (see twin) is not the one observed
+                drv.on_call(name, tag, kw)
 
         def mkfn(name, params, tag):
             src = "def %s(self%s):\n    _rec(self, %r, %r, dict(%s))\n" % (
@@ -144,13 +146,22 @@ class Machine:
             if ly == nl - 1:
                 def done(self_):
                     base.done(self_)
-                    drv.cb.append({"e": "done"})
+                    if self_ is drv.sm:
+                        drv.cb.append({"e": "done"})
                 ns["done"] = done
             cls = type("M%d_L%d" % (uid, ly), (cls,), ns)
         self.cls = cls
         self.sm = cls()
         self.sm.logger = logging.getLogger("verif.sm")      # the framework injects a logger
         setup_tunables(self.sm, self.name)
+        # a second machine of the very same class, driven at random between the observed machine's calls:
+        # two instances must not influence each other
+        self.twin = None
+        if extra.get("twin"):
+            self.twin = cls()
+            self.twin.logger = logging.getLogger("verif.sm.twin")
+            setup_tunables(self.twin, self.name + "_twin")
+            self.twin_rng = random.Random(uid)
         inst = ntcore.NetworkTableInstance.getDefault()
         self.sub = inst.getStringTopic("/components/%s/state/current_state" % self.name).subscribe("<unset>")
         self.inst = inst
@@ -221,7 +232,35 @@ class Machine:
             self.script.consume_ret()
             self.emit({"e": "ret"})
 
+    def poke_twin(self):
+        t = self.twin
+        if t is None:
+            return
+        r = self.twin_rng.random()
+        try:
+            if self.shape["auto"]:
+                if r < 0.3:
+                    t.on_enable()
+                elif r < 0.8:
+                    t.on_enable() if not hasattr(t, "_AutonomousStateMachine__engaged") else None
+                    t.on_iteration(0.0)
+                elif r < 0.9:
+                    t.on_disable()
+            else:
+                if r < 0.45:
+                    t.engage()
+                    t.execute()
+                elif r < 0.6:
+                    t.execute()
+                elif r < 0.7:
+                    t.done()
+                elif r < 0.8:
+                    t.engage(force=True)
+        except Exception:
+            pass
+
     def apply_top(self, ev):
+        self.poke_twin()
         k = ev["e"]
         sm = self.sm
         if k == "engage":
